@@ -5,6 +5,7 @@ package zzvnet
 
 import (
 	"errors"
+	"net"
 	"net/netip"
 	"os"
 	"time"
@@ -23,6 +24,7 @@ type Sink struct {
 	FailAt   int   // 1-based index of the write that fails (0 = never)
 	FailErr  error // error returned by the failing write
 	UsedAfterClose bool
+	CloseErr error // returned by Close (the handle still counts as closed)
 }
 
 func (s *Sink) WriteTo(b []byte, a netip.AddrPort) error {
@@ -38,7 +40,7 @@ func (s *Sink) WriteTo(b []byte, a netip.AddrPort) error {
 	s.Times = append(s.Times, V.NowNs())
 	return nil
 }
-func (s *Sink) Close() error { s.Closed++; return nil }
+func (s *Sink) Close() error { s.Closed++; return s.CloseErr }
 
 // ErrInjected is the foreign cause used by fault injection.
 var ErrInjected = errors.New("injected fault")
@@ -46,6 +48,8 @@ var ErrInjected = errors.New("injected fault")
 // Source delivers scripted packets: Next (one shot) then Queue in order; with nothing left a Read reports the
 // read deadline (os.ErrDeadlineExceeded), which is the capture layer's "no packet yet".
 type Source struct {
+	Timed    bool      // a Read with nothing to deliver sleeps (virtual clock) until the read deadline
+	deadline time.Time
 	Next    []byte
 	Queue   [][]byte
 	Reads   int
@@ -57,6 +61,7 @@ type Source struct {
 	FilterFailAt int
 	DeadlineFailAt int
 	UsedAfterClose bool
+	CloseErr error
 }
 
 func (s *Source) SetReadDeadline(t time.Time) error {
@@ -67,6 +72,7 @@ func (s *Source) SetReadDeadline(t time.Time) error {
 	if s.DeadlineFailAt != 0 && s.Deadlines == s.DeadlineFailAt {
 		return ErrInjected
 	}
+	s.deadline = t
 	return nil
 }
 
@@ -87,12 +93,15 @@ func (s *Source) Read(buf []byte) (int, error) {
 	} else if len(s.Queue) > 0 {
 		p, s.Queue = s.Queue[0], s.Queue[1:]
 	} else {
+		if s.Timed {
+			V.Sleep(time.Until(s.deadline))
+		}
 		return 0, os.ErrDeadlineExceeded
 	}
 	return copy(buf, p), nil
 }
 
-func (s *Source) Close() error { s.Closed++; return nil }
+func (s *Source) Close() error { s.Closed++; return s.CloseErr }
 
 func (s *Source) SetPacketFilter(spec packets.PacketFilterSpec) error {
 	if s.Closed > 0 {
@@ -325,3 +334,32 @@ func L4CsumOK6(p []byte) bool {
 	sum += uint32(p[6]) + uint32(len(seg))
 	return CsumIs(BE16(seg[co:co+2]), Sum16(Sum16(sum, seg[:co]), seg[co+2:]))
 }
+
+
+// Conn is a model net.Conn (the UDP socket used to learn the local address, the TCP connection of the SACK run).
+type Conn struct {
+	Local   net.Addr
+	Remote  net.Addr
+	Closed  int
+	Used    int
+	DeadlineSet bool
+}
+
+func (c *Conn) Read(b []byte) (int, error)         { c.Used++; return 0, os.ErrDeadlineExceeded }
+func (c *Conn) Write(b []byte) (int, error)        { c.Used++; return len(b), nil }
+func (c *Conn) Close() error                       { c.Closed++; return nil }
+func (c *Conn) LocalAddr() net.Addr                { return c.Local }
+func (c *Conn) RemoteAddr() net.Addr               { return c.Remote }
+func (c *Conn) SetDeadline(t time.Time) error      { c.DeadlineSet = true; return nil }
+func (c *Conn) SetReadDeadline(t time.Time) error  { return nil }
+func (c *Conn) SetWriteDeadline(t time.Time) error { return nil }
+
+// Listener is a model net.Listener (the reserved TCP port of the SYN run).
+type Listener struct {
+	A      net.Addr
+	Closed int
+}
+
+func (l *Listener) Accept() (net.Conn, error) { return nil, ErrInjected }
+func (l *Listener) Close() error              { l.Closed++; return nil }
+func (l *Listener) Addr() net.Addr            { return l.A }
